@@ -27,18 +27,15 @@ M = [
  ("realign_without_1a_lookahead", "src/transport/decode.rs", "                            && payload[bytes_until_alignment] == 0x1a\n", "\n", [], "may only change error behaviour on malformed frames: silence is acceptable"),
  ("reader_eof_small_pending_none", "src/transport/decoder_reader.rs", "Err(ReadDecodedError::IoErr(e, 0)) if e.is_eof() => None,", "Err(ReadDecodedError::IoErr(e, n)) if e.is_eof() && n < 9 => None,", ["C11", "C15", "C10"], "pending bytes vanish at end of input"),
  ("arraybuf_truncate_grows", "src/util.rs", "self.num_elements = self.num_elements.min(len);", "self.num_elements = if len <= N { len } else { self.num_elements };", ["C18"], "truncate can grow and expose stale bytes"),
- ("time_workaround_int4", "src/parser/common.rs", "(tlf.ty == Ty::ListOf && tlf.len == 2) || *tlf == TypeLengthField::new(Ty::Unsigned, 4)", "(tlf.ty == Ty::ListOf && tlf.len == 2) || (tlf.ty == Ty::Unsigned && tlf.len == 4) || (tlf.ty == Ty::Integer && tlf.len == 4)", ["C04"], "accepts Integer(4) as time"),
+ ("time_workaround_int4", "src/parser/common.rs", "        (tlf.ty == Ty::ListOf && tlf.len == 2) || *tlf == TypeLengthField::new(Ty::Unsigned, 4)\n    }\n\n    fn parse_with_tlf(input: &'i [u8], tlf: &TypeLengthField) -> ResTy<'i, Self> {\n        // Workaround for Holley DTZ541:\n        // For the `Time` type, this meter doesn't respect the spec.\n        // Intead of a TLF of type ListOf and length 2, it directly sends an u32 integer,\n        // which is encoded by a TLF of Unsigned and length 4 followed by four bytes containing\n        // the data.\n        if *tlf == TypeLengthField::new(Ty::Unsigned, 4) {", "        (tlf.ty == Ty::ListOf && tlf.len == 2) || (tlf.len == 4 && matches!(tlf.ty, Ty::Unsigned | Ty::Integer))\n    }\n\n    fn parse_with_tlf(input: &'i [u8], tlf: &TypeLengthField) -> ResTy<'i, Self> {\n        // Workaround for Holley DTZ541:\n        // For the `Time` type, this meter doesn't respect the spec.\n        // Intead of a TLF of type ListOf and length 2, it directly sends an u32 integer,\n        // which is encoded by a TLF of Unsigned and length 4 followed by four bytes containing\n        // the data.\n        if tlf.len == 4 && tlf.ty != Ty::ListOf {", ["C04", "C12"], "vendor workaround also taken for Integer(4) at a time position"),
  ("complete_skip_end_marker", "src/parser/complete.rs", "        let (input, _) = EndOfSmlMessage::parse(input)?;\n", "        let (input, _) = super::take_byte(input)?;\n", ["C04", "C09"], "allocating parser accepts non-00 end marker"),
  ("streaming_skip_end_marker", "src/parser/streaming.rs", "                let (input, _) = EndOfSmlMessage::parse(input)?;\n                self.input = input;", "                let (input, _) = super::take_byte(input)?;\n                self.input = input;", ["C04", "C09"], "streaming parser accepts non-00 end marker"),
  ("complete_crc_low_byte_only", "src/parser/complete.rs", "        if digest != crc {", "        if (digest & 0xff) != (crc & 0xff) {", ["C04", "C09"], "only low CRC byte compared"),
  ("streaming_no_crc_check", "src/parser/streaming.rs", "                if digest != crc {\n                    return Err(ParseError::CrcMismatch);\n                }", "                let _ = (digest, crc);", ["C04", "C09"], "streaming parser ignores checksum"),
  ("complete_ignores_trailing", "src/parser/complete.rs", "            messages.push(msg);\n            input = new_input;\n", "            messages.push(msg);\n            input = new_input;\n            if input.len() <= 2 { input = &input[input.len()..]; }\n", ["C04", "C09"], "<= 2 leftover bytes accepted"),
- ("streaming_list_off_by_one", "src/parser/streaming.rs", "self.pending_list_entries = glr.num_vals + 2;", "self.pending_list_entries = glr.num_vals.max(1) + 2;", ["C03", "C09"], "empty value list mis-parsed"),
+ ("streaming_list_off_by_one", "src/parser/streaming.rs", "self.pending_list_entries = u64::from(glr.num_vals) + 2;", "self.pending_list_entries = u64::from(glr.num_vals.max(1)) + 2;", ["C03", "C09"], "empty value list mis-parsed"),
  ("status_u64_only_width8", "src/parser/common.rs", "tlf if <u32>::check_tlf(tlf) => map(<u32>::parse_with_tlf(input, tlf), Self::Status32),\n            tlf if <u64>", "tlf if <u32>::check_tlf(tlf) => map(<u32>::parse_with_tlf(input, tlf), Self::Status32),\n            tlf if tlf.len == 8 && <u64>", ["C03", "C12"], "5-7 byte status rejected"),
  ("oom_keeps_raw_len", "src/transport/decode.rs", "        if buf.push(b).is_err() {\n            self.reset(buf);", "        if buf.push(b).is_err() {\n            let l = self.raw_msg_len;\n            self.reset(buf);\n            self.raw_msg_len = l;", ["C17", "C14", "C16"], "byte count survives OutOfMemory"),
- ("value_i8_as_i16", "src/parser/common.rs", "            tlf if <i8>::check_tlf(tlf) => map(<i8>::parse_with_tlf(input, tlf), Self::I8),\n", "", ["C03", "C12"], "1-byte integers reported as I16"),
- ("tlf_underflow_saturates", "src/parser/tlf.rs", "                None => {\n                    return Err(TlfParseError::TlfLengthUnderflow.into());\n                }\n            }\n        }", "                None => 0,\n            }\n        }", ["C12", "C04"], "negative TLF length accepted as 0"),
- ("restart_raw_len_off", "src/transport/decode.rs", "                        let ignored_bytes = self.raw_msg_len - 8;\n                        self.raw_msg_len = 8;", "                        let ignored_bytes = self.raw_msg_len - 8;\n                        self.raw_msg_len = 8 + 4 * (ignored_bytes > 40) as usize;", ["C17"], "after a long aborted frame the next leftover count is off by 4"),
  # equivalent on purpose: every check must stay silent
  ("EQUIV_done_keeps_crc", "src/transport/decode.rs", "                        let calculated_crc = {\n                            let mut crc = CRC_X25.digest();\n                            core::mem::swap(&mut crc, &mut self.crc);\n                            crc.finalize()\n                        };", "                        let calculated_crc = self.crc.clone().finalize();", [], "end sequence keeps the old digest (re-initialised at the next start sequence anyway)"),
  ("EQUIV_arraybuf_extend_scribbles", "src/util.rs", "        if self.num_elements + other.len() > N {\n            return Err(OutOfMemory);\n        }", "        if self.num_elements + other.len() > N {\n            let room = N - self.num_elements;\n            self.buffer[self.num_elements..].copy_from_slice(&other[..room]);\n            return Err(OutOfMemory);\n        }", [], "failing extend scribbles beyond the logical length"),
